@@ -54,6 +54,7 @@ type vfCtx struct {
 	excluded   int
 	// extra counters a check wants to surface in its evidence (summed over cases)
 	counters map[string]int64
+	stats    map[string][2]float64 // min / max of measured quantities
 	tier     string
 	replay   bool
 }
@@ -63,6 +64,22 @@ func (c *vfCtx) Class(name string) { c.classes[name]++ }
 func (c *vfCtx) Count(name string, n int64) {
 	c.counters[name] += n
 }
+
+// Stat records a measured quantity; the evidence reports its minimum and maximum over the run.
+func (c *vfCtx) Stat(name string, v float64) {
+	if cur, ok := c.stats[name]; ok {
+		if v < cur[0] {
+			cur[0] = v
+		}
+		if v > cur[1] {
+			cur[1] = v
+		}
+		c.stats[name] = cur
+	} else {
+		c.stats[name] = [2]float64{v, v}
+	}
+}
+
 func (c *vfCtx) ClassIf(cond bool, name string) {
 	if cond {
 		c.classes[name]++
@@ -92,23 +109,24 @@ type vfKnownFinding struct {
 }
 
 type vfResult struct {
-	Property    string            `json:"property"`
-	Mode        string            `json:"mode"` // search | replay
-	Seed        uint64            `json:"seed"`
-	Requested   int               `json:"requested"`
-	Evaluations int               `json:"evaluations"`
-	NonTrivial  []string          `json:"nontrivial_hashes"`
-	NTCount     int               `json:"nontrivial_count"`
-	Classes     map[string]int    `json:"classes"`
-	Counters    map[string]int64  `json:"counters"`
-	Samples     []json.RawMessage `json:"samples"`
-	Excluded    int               `json:"excluded_by_known_finding"`
-	Known       []string          `json:"known_finding_lines"`
-	Violation   *vfViolation      `json:"violation,omitempty"`
-	FailCase    json.RawMessage   `json:"fail_case,omitempty"`
-	Notes       []string          `json:"notes,omitempty"`
-	WallS       float64           `json:"wall_s"`
-	Completed   bool              `json:"completed"`
+	Property    string                `json:"property"`
+	Mode        string                `json:"mode"` // search | replay
+	Seed        uint64                `json:"seed"`
+	Requested   int                   `json:"requested"`
+	Evaluations int                   `json:"evaluations"`
+	NonTrivial  []string              `json:"nontrivial_hashes"`
+	NTCount     int                   `json:"nontrivial_count"`
+	Classes     map[string]int        `json:"classes"`
+	Counters    map[string]int64      `json:"counters"`
+	Stats       map[string][2]float64 `json:"stats"`
+	Samples     []json.RawMessage     `json:"samples"`
+	Excluded    int                   `json:"excluded_by_known_finding"`
+	Known       []string              `json:"known_finding_lines"`
+	Violation   *vfViolation          `json:"violation,omitempty"`
+	FailCase    json.RawMessage       `json:"fail_case,omitempty"`
+	Notes       []string              `json:"notes,omitempty"`
+	WallS       float64               `json:"wall_s"`
+	Completed   bool                  `json:"completed"`
 }
 
 func vfEnv(key string) string { return os.Getenv(key) }
@@ -170,7 +188,7 @@ func vfLoadFindings(prop string) []vfKnownFinding {
 // vfCheck is the single entry point used by every TestVerif_Cxx.
 func vfCheck[C any](t *testing.T, prop string, gen func(*rapid.T) C, run func(C, *vfCtx) *vfViolation) {
 	start := time.Now()
-	res := &vfResult{Property: prop, Classes: map[string]int{}, Counters: map[string]int64{}}
+	res := &vfResult{Property: prop, Classes: map[string]int{}, Counters: map[string]int64{}, Stats: map[string][2]float64{}}
 	res.Mode = "search"
 	tier := os.Getenv("VERIF_TIER")
 	if tier == "" {
@@ -201,7 +219,7 @@ func vfCheck[C any](t *testing.T, prop string, gen func(*rapid.T) C, run func(C,
 
 	active := map[string]bool{}
 	newCtx := func() *vfCtx {
-		return &vfCtx{classes: map[string]int{}, counters: map[string]int64{}, activeAttr: active, tier: tier}
+		return &vfCtx{classes: map[string]int{}, counters: map[string]int64{}, stats: map[string][2]float64{}, activeAttr: active, tier: tier}
 	}
 
 	// --- open known findings: replay each, switch on its exclusion if it still fails ---
@@ -291,6 +309,19 @@ func vfCheck[C any](t *testing.T, prop string, gen func(*rapid.T) C, run func(C,
 			}
 			for k, n := range ctx.counters {
 				res.Counters[k] += n
+			}
+			for k, mm := range ctx.stats {
+				if cur, ok := res.Stats[k]; ok {
+					if mm[0] < cur[0] {
+						cur[0] = mm[0]
+					}
+					if mm[1] > cur[1] {
+						cur[1] = mm[1]
+					}
+					res.Stats[k] = cur
+				} else {
+					res.Stats[k] = mm
+				}
 			}
 			res.Excluded += ctx.excluded
 			if ctx.nontrivial {
